@@ -1,0 +1,9 @@
+//go:build !verif
+
+package gchan
+
+import "context"
+
+// yield is a no-op unless built with the verif tag;
+// see yield_verif.go.
+func yield(context.Context, string, string) {}
